@@ -283,3 +283,58 @@ pub fn note_service(
 pub fn take_services() -> Vec<ServiceNote> {
     SERVICES.with(|m| std::mem::take(&mut *m.borrow_mut()))
 }
+
+/// `node` area: protocol / transport objects as constructed — (local peer, what, canonical text),
+/// written by the objects themselves (guarded notes at the start of their event loops, and by
+/// `Litep2p::new` for the transport it has just built) from the values they actually hold.
+/// Process-wide (the event loops start on runtime worker threads), bounded.
+static CONFIG_NOTES: std::sync::Mutex<Vec<(crate::PeerId, String, String)>> =
+    std::sync::Mutex::new(Vec::new());
+
+/// Set by the `node` adapter only: in every other area the objects report nothing (no allocation, no log).
+static CONFIG_NOTES_ON: std::sync::atomic::AtomicBool = std::sync::atomic::AtomicBool::new(false);
+
+/// Switch the notes on (the `node` adapter does, when it is created).
+pub fn enable_config_notes() {
+    CONFIG_NOTES_ON.store(true, Ordering::SeqCst);
+}
+
+/// Are the notes switched on?
+pub fn config_notes_enabled() -> bool {
+    CONFIG_NOTES_ON.load(Ordering::SeqCst)
+}
+
+/// Record what a constructed object holds.
+pub fn note_config(local: crate::PeerId, what: &str, text: String) {
+    if !config_notes_enabled() {
+        return;
+    }
+    if let Ok(mut notes) = CONFIG_NOTES.lock() {
+        if notes.len() >= 4096 {
+            notes.remove(0);
+        }
+        notes.push((local, what.to_string(), text));
+    }
+}
+
+/// Take the notes of one local peer: `(what, text)` in arrival order.
+pub fn take_configs(local: &crate::PeerId) -> Vec<(String, String)> {
+    let Ok(mut notes) = CONFIG_NOTES.lock() else {
+        return Vec::new();
+    };
+    let mut res = Vec::new();
+    notes.retain(|(peer, what, text)| {
+        if peer == local {
+            res.push((what.clone(), text.clone()));
+            false
+        } else {
+            true
+        }
+    });
+    res
+}
+
+/// Number of notes waiting for one local peer.
+pub fn count_configs(local: &crate::PeerId) -> usize {
+    CONFIG_NOTES.lock().map(|n| n.iter().filter(|(p, _, _)| p == local).count()).unwrap_or(0)
+}
